@@ -361,6 +361,36 @@ class InsertNoop(ast.NodeTransformer):
         return n
 
 
+class RenameNestedFns(ast.NodeTransformer):
+    """closures (functions defined inside functions) get another name: `def on_next(...)` -> `def on_next_h(...)`, with every
+    reference in the enclosing function updated.  Names that are also parameters / assigned names somewhere in the function are skipped."""
+    def _fn(self, n):
+        self.generic_visit(n)
+        inner = [b.name for b in ast.walk(n) if isinstance(b, (ast.FunctionDef, ast.AsyncFunctionDef)) and b is not n]
+        if not inner:
+            return n
+        bound = set()
+        for x in ast.walk(n):
+            if isinstance(x, ast.arg):
+                bound.add(x.arg)
+            if isinstance(x, ast.Name) and isinstance(x.ctx, ast.Store):
+                bound.add(x.id)
+            if isinstance(x, ast.keyword) and x.arg:
+                bound.add(x.arg)
+        ren = {nm: nm + "_h" for nm in set(inner) if nm not in bound and not nm.endswith("_h") and inner.count(nm) == 1}
+        if not ren:
+            return n
+        for x in ast.walk(n):
+            if x is n:
+                continue
+            if isinstance(x, (ast.FunctionDef, ast.AsyncFunctionDef)) and x.name in ren:
+                x.name = ren[x.name]
+            if isinstance(x, ast.Name) and x.id in ren:
+                x.id = ren[x.id]
+        return n
+    visit_FunctionDef = visit_AsyncFunctionDef = _fn
+
+
 class AddDocstrings(ast.NodeTransformer):
     """every function without a docstring gets one (maintainers document code; rules must not count a docstring as a statement)"""
     def visit_FunctionDef(self, n):
@@ -439,6 +469,8 @@ def transform(root, kind):
                 t_ = InsertNoop()
                 t_.calls = kind == "logcall"
                 tree = t_.visit(tree)
+            elif kind == "fnrename":
+                tree = RenameNestedFns().visit(tree)
             elif kind == "docstring":
                 tree = AddDocstrings().visit(tree)
             elif kind == "annotate":
